@@ -672,6 +672,42 @@ def aware_utc(x):
     return x.tzinfo is not None and x.utcoffset() == timedelta(0)
 
 
+def enc_arg(x):
+    if isinstance(x, datetime):
+        return {'dt': [x.year, x.month, x.day, x.hour, x.minute, x.second, 1 if x.tzinfo is not None else 0]}
+    if isinstance(x, timedelta):
+        return {'td': x.days * 86400 + x.seconds}
+    if isinstance(x, float):
+        return {'f': repr(x)}
+    return x
+
+
+def dec_arg(x):
+    if isinstance(x, dict):
+        if 'dt' in x:
+            v = x['dt']
+            return datetime(*v[:6], tzinfo=UTC if v[6] else None)
+        if 'td' in x:
+            return timedelta(seconds=x['td'])
+        if 'f' in x:
+            return float(x['f'])
+    return x
+
+
+def guarded(kind):
+    """an exception escaping from the code under test is a failed case of the property, not a crash of the check"""
+    def deco(f):
+        def g(self, *a):
+            try:
+                return f(self, *a)
+            except Exception as e:  # noqa: BLE001
+                self.bad(kind + '-exception', {'method': f.__name__, 'args': [enc_arg(x) for x in a]},
+                         f'{type(e).__name__}: {e}'[:300])
+        g.__name__ = f.__name__
+        return g
+    return deco
+
+
 class Oracle:
     def __init__(self, ctx):
         self.ctx = ctx
@@ -681,6 +717,7 @@ class Oracle:
         self.ctx.violation(kind, inp, detail, cls)
 
     # ---- value -> text -> value, and the grammar of the text
+    @guarded('date')
     def date(self, y, m, d):
         from icalendar.prop import vDate, vDDDTypes
         v = date(y, m, d)
@@ -693,6 +730,7 @@ class Oracle:
         if vDDDTypes(v).to_ical().decode() != t:
             self.bad('date-ddd-encode', {'type': 'date', 'value': [y, m, d]}, 'vDDDTypes encodes a date differently from vDate')
 
+    @guarded('datetime')
     def datetime_(self, y, m, d, h, mi, s, z):
         from icalendar.prop import vDatetime, vDDDTypes
         inp = {'type': 'datetime', 'value': [y, m, d, h, mi, s, int(z)]}
@@ -706,6 +744,7 @@ class Oracle:
         if vDDDTypes.from_ical(t) != back:
             self.bad('datetime-ddd', inp, 'vDDDTypes.from_ical differs from vDatetime.from_ical')
 
+    @guarded('time')
     def time_(self, h, mi, s):
         from icalendar.prop import vTime
         v = time(h, mi, s)
@@ -717,6 +756,7 @@ class Oracle:
         if type(back) is not time or back != v or back.tzinfo is not None:
             self.bad('time-roundtrip', {'type': 'time', 'value': [h, mi, s, 0]}, f'{t!r} decoded to {back!r}')
 
+    @guarded('time_utc')
     def time_utc(self, h, mi, s):
         """the UTC form of TIME: `HHMMSSZ` is the time in UTC (RFC 5545 3.3.12 form 2)"""
         from icalendar.prop import vTime
@@ -733,6 +773,7 @@ class Oracle:
         elif back.tzinfo is None or back.utcoffset() != timedelta(0):
             self.bad('time-utc-decode', inp, f'{text!r} decoded to the naive time {back!r}', 'time-utc-flag-lost')
 
+    @guarded('duration')
     def duration(self, s):
         from icalendar.prop import vDuration, vDDDTypes
         inp = {'type': 'duration', 'value': s}
@@ -746,6 +787,7 @@ class Oracle:
         if vDDDTypes.from_ical(t) != v:
             self.bad('duration-ddd', inp, f'vDDDTypes.from_ical({t!r}) is not the duration')
 
+    @guarded('offset')
     def offset(self, s):
         from icalendar.prop import vUTCOffset
         inp = {'type': 'utcoffset', 'value': s}
@@ -757,6 +799,7 @@ class Oracle:
         if back != v:
             self.bad('utcoffset-roundtrip', inp, f'{t!r} decoded to {back!r}')
 
+    @guarded('integer')
     def integer(self, z):
         from icalendar.prop import vInt
         t = vInt(z).to_ical().decode()
@@ -766,6 +809,7 @@ class Oracle:
         if back != z or isinstance(back, bool):
             self.bad('int-roundtrip', {'type': 'int', 'value': z}, f'{t!r} decoded to {back!r}')
 
+    @guarded('float')
     def float_(self, x):
         from icalendar.prop import vFloat
         inp = {'type': 'float', 'value': repr(x)}
@@ -777,6 +821,7 @@ class Oracle:
             cls = 'float-exponent-or-nonfinite' if (not math.isfinite(x) or 'e' in t.lower()) else None
             self.bad('float-grammar', inp, f'encoded {t!r} is outside the RFC FLOAT grammar', cls)
 
+    @guarded('geo')
     def geo(self, lat, lon):
         from icalendar.prop import vGeo
         inp = {'type': 'geo', 'value': [repr(lat), repr(lon)]}
@@ -789,12 +834,14 @@ class Oracle:
             cls = 'float-exponent-or-nonfinite' if 'e' in t.lower() else None
             self.bad('geo-grammar', inp, f'encoded {t!r} is outside the RFC GEO grammar float;float', cls)
 
+    @guarded('boolean')
     def boolean(self, b):
         from icalendar.prop import vBoolean
         t = vBoolean(b).to_ical().decode()
         if t != ('TRUE' if b else 'FALSE') or vBoolean.from_ical(t) is not b:
             self.bad('boolean', {'type': 'bool', 'value': b}, f'encoded {t!r}, decoded {vBoolean.from_ical(t)!r}')
 
+    @guarded('binary')
     def binary(self, s):
         import base64
         from icalendar.prop import vBinary
@@ -805,6 +852,7 @@ class Oracle:
         if back != s.encode('utf-8') or base64.b64decode(t) != back:
             self.bad('binary-roundtrip', {'type': 'binary', 'value': s}, f'{t!r} decoded to {back!r}')
 
+    @guarded('uri')
     def uri(self, s):
         from icalendar.prop import vCalAddress, vUri
         for cls_ in (vUri, vCalAddress):
@@ -813,6 +861,7 @@ class Oracle:
             if t != s or str(back) != s:
                 self.bad('uri-roundtrip', {'type': cls_.__name__, 'value': s}, f'encoded {t!r}, decoded {back!r}')
 
+    @guarded('period')
     def period(self, start, second):
         from icalendar.prop import vPeriod, vDDDTypes
         inp = {'type': 'period', 'value': [ddd_s((start, second))]}
@@ -823,6 +872,7 @@ class Oracle:
             if not (isinstance(back, tuple) and len(back) == 2 and ddd_s(back) == ddd_s((start, second))):
                 self.bad('period-roundtrip', inp, f'{t!r} decoded to {back!r}')
 
+    @guarded('weekday')
     def weekday(self, text):
         from icalendar.prop import vWeekday
         day, rel = rfc_wd(text)
@@ -832,12 +882,14 @@ class Oracle:
         if t != text or str(back) != text or back.weekday != WEEKDAYS[day] or back.relative != rel:
             self.bad('weekday', {'type': 'weekday', 'text': text}, f'encoded {t!r}, decoded {back!r} weekday={back.weekday} relative={back.relative}')
 
+    @guarded('freq')
     def freq(self, text):
         from icalendar.prop import vFrequency
         t = vFrequency(text).to_ical().decode()
         if t != text or str(vFrequency.from_ical(t)) != text:
             self.bad('frequency', {'type': 'frequency', 'text': text}, f'encoded {t!r}')
 
+    @guarded('month')
     def month(self, n, lp):
         from icalendar.prop import vMonth
         v = vMonth(f'{n}L' if lp else n)
@@ -847,6 +899,7 @@ class Oracle:
             self.bad('month', {'type': 'month', 'value': [n, lp]}, f'encoded {t!r}, decoded {back!r}')
 
     # ---- grammar-valid text -> RFC value, and classification by vDDDTypes.from_ical
+    @guarded('text')
     def text(self, kind, t):
         from icalendar.prop import (vDate, vDatetime, vDDDTypes, vDuration, vInt, vPeriod, vTime, vUTCOffset)
         inp = {'type': kind, 'text': t}
@@ -919,6 +972,9 @@ class Oracle:
 
 
 def run_value_case(orc, inp):
+    if 'method' in inp:
+        getattr(orc, inp['method'])(*[dec_arg(x) for x in inp['args']])
+        return
     k = inp.get('type')
     if 'text' in inp and k in ('date', 'dt', 'time', 'dur', 'off', 'int', 'period'):
         orc.text(k, inp['text'])
